@@ -224,17 +224,18 @@ Record oracles := Oracles {
   o_postfix_parens : expr -> bool;                      (* needs_parens_in_postfix *)
   o_lambda_body_parens : expr -> bool;                  (* lambda_body_needs_parens *)
   o_unary_parens : expr -> bool;                        (* needs_parens_in_unary *)
-  (* not an oracle but a version switch: false = formatter.rs as it is, true = formatter.rs with
-     fixes/C09-nested-comments.diff (expressions that contain comments are never printed
-     through expr_to_source).  Every theorem is stated for both versions. *)
+  (* not an oracle but a version switch: true = formatter.rs as it is since ff5578e
+     (fixes/C09-nested-comments.diff: expressions that contain comments are never printed
+     through expr_to_source), false = formatter.rs before that commit.  Every theorem is stated
+     for both versions; the checks run the model with true. *)
   o_keep_nested_comments : bool
 }.
 
 Definition unary_op_str (op : unop) : string :=
   match op with Negate => "-" | Not => "!" | Invert => "~" end.
 
-(* contains_comments (fixes/C09-nested-comments.diff): a list, record or do-block anywhere inside
-   the expression carries a comment *)
+(* contains_comments (formatter.rs, ff5578e): a list, record or do-block anywhere inside the
+   expression carries a comment *)
 Fixpoint contains_comments (e : expr) : bool :=
   match e with
   | EList items => existsb (fun c => has_comments c || contains_comments (cnode c)) items
@@ -458,7 +459,7 @@ Section Fmt.
       | EBin op l r => binop_doc op l r i
       | EDo stmts ret => do_doc stmts ret i
       | _ =>
-          (* with the fix: an operand that contains comments is laid out, not printed through
+          (* since ff5578e: an operand that contains comments is laid out, not printed through
              expr_to_source *)
           if keep && contains_comments e then
             match e with
@@ -933,7 +934,7 @@ Definition oracles_impl (fixed : bool) (opinfo : list (nat * bool)) (ntbl : list
           (postfix_parens_impl opinfo) (lambda_body_parens_impl opinfo) (unary_parens_impl opinfo) fixed.
 
 Section Run.
-  Variable fixed : bool.          (* false: /repo as it is; true: with fixes/C09-nested-comments.diff *)
+  Variable fixed : bool.          (* true: /repo as it is (ff5578e); false: before fixes/C09-nested-comments.diff *)
   Variable opinfo : list (nat * bool).
   Variable ntbl : list (Z * string).
   Definition run_lib (width : option nat) (p : list stmt) : option doc :=
